@@ -33,7 +33,34 @@ def _loop_term(model, fi, target: str, consts: Dict[str, Any], extra_env: Dict[s
     env.update(extra_env)
     loop = next((n for n in walk_ordered(fi.node) if isinstance(n, ast.For) and "omega.size" in norm(n.iter)), None)
     if loop is None:
-        raise AnalysisError(f"{fi.qual}: row loop over omega not found")
+        # vectorised form: no row loop; interpret the straight-line statements entry-wise (ω for omega, τ for tau,
+        # outer(a, b) → a·b) and take the last value bound to the target
+        def xc(cur, name, node, args, kwargs, env_):
+            if name == "outer" and len(args) == 2:
+                return args[0] * args[1]
+            if name in ("array_sum", "sum") and args:
+                return args[0]
+            return NotImplemented
+        ti2 = RepoInterp(model, decide=lambda t, e: consts.get(norm(t)), extra_call=xc)._interp(fi, 0)
+        env["omega"] = W
+        out2 = None
+        for s in fi.node.body:
+            if isinstance(s, (ast.Assign, ast.AnnAssign)) and s.value is not None:
+                t = s.targets[0] if isinstance(s, ast.Assign) else s.target
+                base = t.value if isinstance(t, ast.Subscript) else t
+                if not isinstance(base, ast.Name):
+                    continue
+                try:
+                    v = ti2.ev(s.value, env)
+                except Unsupported:
+                    env.pop(base.id, None)
+                    continue
+                env[base.id] = v
+                if base.id == target:
+                    out2 = v
+        if out2 is None:
+            raise AnalysisError(f"{fi.qual}: neither a row loop over omega nor an entry-wise expression for {target} found")
+        return sp.sympify(out2)
     out = None
     for s in loop.body:
         if isinstance(s, (ast.Assign, ast.AnnAssign)) and s.value is not None:
@@ -164,11 +191,29 @@ def check(ctx: Ctx) -> None:
         ctx.violation("R13.1", "calculate_drt_tr_nnls:gamma", NN, ent.node, "γ must be the non-negative least-squares solution times R_pol")
     dl = model.fi(NN, "_calculate_delta_ln_tau")
     ctx.instance("R13.1", "Δlnτ: central differences inside, one-sided halves at the ends (trapezoidal weights)")
-    t = norm(dl.node)
-    if "delta_ln_tau[i] = 0.5 * (ln_tau[i + 1] - ln_tau[i - 1])" in t and "delta_ln_tau[0] = 0.5 * (ln_tau[1] - ln_tau[0])" in t and "delta_ln_tau[-1] = 0.5 * (ln_tau[-1] - ln_tau[-2])" in t:
+    # interpreted on symbolic arrays of length 2..7 (sa.miniinterp.SymArray): the function is linear in ln τ, so equality
+    # of the symbolic entries is exact for each length
+    from ..miniinterp import InterpRaise, Mini, SymArray, module_globals
+    wit = None
+    for n_ in range(2, 8):
+        xs = [sp.Symbol(f"x{i}", real=True) for i in range(n_)]
+        stubs = {"ln": lambda a: a, "log": lambda a: a, "zeros": lambda n, **k: SymArray([sp.Integer(0)] * (n if isinstance(n, int) else n[0])),
+                 "float64": float, "diff": lambda a: SymArray([a[i + 1] - a[i] for i in range(len(a) - 1)]), "empty": lambda n, **k: SymArray([sp.Symbol(f"uninit{i}") for i in range(n if isinstance(n, int) else n[0])]),
+                 "zeros_like": lambda a, **k: SymArray([sp.Integer(0)] * len(a)), "empty_like": lambda a, **k: SymArray([sp.Symbol(f"uninit{i}") for i in range(len(a))])}
+        try:
+            out_ = Mini(module_globals(ctx.repo.modules[NN].tree, stubs)).call_function(dl.node, {"tau": SymArray(xs)})
+            got_ = [sp.simplify(e) for e in out_]
+        except InterpRaise as e:
+            got_ = e.kind
+        want_ = [sp.Rational(1, 2) * (xs[1] - xs[0])] + [sp.Rational(1, 2) * (xs[i + 1] - xs[i - 1]) for i in range(1, n_ - 1)] + [sp.Rational(1, 2) * (xs[-1] - xs[-2])]
+        if n_ == 2:
+            want_ = [sp.Rational(1, 2) * (xs[1] - xs[0])] * 2
+        if isinstance(got_, str) or len(got_) != n_ or any(sp.simplify(a_ - b_) != 0 for a_, b_ in zip(got_, want_)):
+            wit = wit or (n_, got_, want_)
+    if wit is None:
         ctx.ok()
     else:
-        ctx.violation("R13.1", "_calculate_delta_ln_tau:weights", NN, dl.node, "the integration weights in ln τ are no longer the trapezoidal ones (the area of γ would not be R_pol)")
+        ctx.violation("R13.1", "_calculate_delta_ln_tau:weights", NN, dl.node, f"the integration weights in ln τ are no longer the trapezoidal ones (the area of γ would not be R_pol): for {wit[0]} points with x = ln τ they are {wit[1]} instead of {wit[2]}")
 
     # ---------------- R13.2 ---------------------------------------------------------
     ep = model.fi(LM, "_extract_peaks")
